@@ -35,8 +35,8 @@ def one(k, m):
         if r.returncode:
             return [f"{m['name']}: does not import: {r.stderr[-200:]}"]
         for pr in m['props'].split(','):
-            env = {**os.environ, 'VERIF_REPO': wt, 'VERIF_EVIDENCE_DIR': f'/verif/.work/mb-ev-{k}',
-                   'VERIF_REPLAY_DIR': f'/verif/.work/mb-replay-{k}'}
+            env = {**os.environ, 'VERIF_REPO': wt, 'VERIF_EVIDENCE_DIR': f'/verif/.work/mb-ev-{os.getpid()}-{k}',
+                   'VERIF_REPLAY_DIR': f'/verif/.work/mb-replay-{os.getpid()}-{k}'}
             r = subprocess.run(['/verif/check', pr, '--tier', tier], capture_output=True, text=True, env=env)
             keys = [l.strip()[:160] for l in r.stdout.splitlines() if l.strip().startswith('key=')]
             verdict = {0: 'MISSED', 1: 'caught', 3: 'inconclusive'}.get(r.returncode, f'rc={r.returncode}')
@@ -44,8 +44,8 @@ def one(k, m):
     finally:
         subprocess.run(['git', '-C', '/repo', 'worktree', 'remove', '--force', wt], capture_output=True)
         shutil.rmtree(wt, ignore_errors=True)
-        shutil.rmtree(f'/verif/.work/mb-ev-{k}', ignore_errors=True)
-        shutil.rmtree(f'/verif/.work/mb-replay-{k}', ignore_errors=True)
+        shutil.rmtree(f'/verif/.work/mb-ev-{os.getpid()}-{k}', ignore_errors=True)
+        shutil.rmtree(f'/verif/.work/mb-replay-{os.getpid()}-{k}', ignore_errors=True)
     return out
 
 
